@@ -196,7 +196,7 @@ package store
 // that reader's own lock, which the reader holds while it asks the storer for the last segment
 // (dataSetMux.RLock): closing them while dataSetMux is held exclusively is a lock-order inversion
 // that freezes the storer.
-//@ func dataSet.Close(self) (err)
+//@ func dataSet.Close(self)
 //@   trusted abstract: closes the writers and readers of the data set (waits for each reader's own lock)
 //@   modifies heap
 //@ func Storer.resetDataSet
@@ -344,14 +344,26 @@ package store
 //@ func filepath.Join(elem) (r)
 //@   trusted library contract (pure)
 //@   modifies nothing
+//@ func os.MkdirAll(path, perm) (err)
+//@   trusted library contract (writes the file system only)
+//@   modifies nothing
+//@ func Storer.initDataSet(self) (ds)
+//@   trusted by reading: builds an index from the files of s.dir and returns it; it does not install it (decided for its parts under TruncateGap / the index predicates)
+//@   modifies heap
+//@   ensures the_index_in_use_is_not_touched: self.dataSet == old(self.dataSet)
 
 //@ func Storer.newRunId
 //@   arith int
 //@   properties C05
-//@   replay store_reindexGc
+//@   replay store_reindexGc store_replidSwitch
 //@   requires nonnil: s != nil
-//@   modifies heap
+//@   modifies heap, dsCloses
 //@   ensures the_index_of_an_unchanged_run_id_is_kept: result == nil && id != "" && id != "?" && old(s.runId) == id && old(s.dataSet) != nil ==> s.dataSet == old(s.dataSet)
+//   dsCloses  data sets closed by this call
+//@   ghost var dsCloses mathint = 0
+//@   set dsCloses = dsCloses + 1 at call Close
+//@   assert at call Close: the_index_that_is_closed_is_the_replaced_one: ds == old(s.dataSet)
+//@   ensures the_readers_of_a_replaced_index_are_invalidated: result == nil && old(s.dataSet) != nil && s.dataSet != old(s.dataSet) ==> dsCloses == old(dsCloses) + 1
 
 // ---- a snapshot whose writer gave up is taken off the index (C05; KNOWN FINDING on the disk cache)
 // The snapshot writer tells its close observer whether the snapshot is incomplete (third
